@@ -140,6 +140,14 @@ CHECKS["C19"] = dict(
     technique="symbolic execution of the real kernels/wrappers + z3 (nlsat) inequality and identity queries; instantiated axioms for sin; Fourier modes via symbolic three-term recurrences",
     design="DESIGN.md section 5 C19")
 
+CHECKS["C14"] = dict(
+    text="Bounded symbolic checking of equivariance: two symbolic runs of the real simulators, one on a state and one on its relabelled copy (axis permutations with pseudo-vector sign, axis "
+         "mirrors) on the relabelled non-cubic grid, built from the same solver variables. Transport part (forcing, transport, diffusion, filter, damping; compactly supported vorticity/forcing, "
+         "arbitrary velocity, ENO ties excluded): step(g.S) = g.step(S) exactly per cell (z3). Velocity part (Poisson solve, curl, free stream): equality within a stated tolerance for all "
+         "vorticities in a box (each simulator carries its own floating-point tables).",
+    technique="two symbolic executions of the real time_step on a state and its relabelled copy + z3 per-cell equivalence queries (NRA with ite) and QF_LRA tolerance queries",
+    design="DESIGN.md section 5 C14")
+
 NOT_APPLICABLE = {
     "C02": "convergence of whole simulations over resolution families: thousands of time steps of floating-point code on 32^2..128^2 grids; no bound on steps/sizes under which a solver query is still the property (DESIGN.md section 5 C02). Its solver-decidable ingredients are claimed under C01, C03, C05, C16.",
 }
